@@ -176,7 +176,7 @@ OPTIONS = ["deleteEcu", "renameEcu", "deleteFrame", "renameFrame", "deleteSignal
 
 
 def gen(rng, tier, shard, nshards):
-    total = {"quick": 700, "thorough": 20000}[tier] // nshards + 1
+    total = {"quick": 4000, "thorough": 40000}[tier] // nshards + 1
     for _ in range(total):
         m = gen_matrix(rng)
         r = rng.random()
